@@ -607,6 +607,191 @@ def judgeC16 (o : Obs) : Verdict :=
            | none => [])
     else [])
 
+/-! ### C18 - the SimPy layer -/
+
+structure PyInfo where
+  idx : Int
+  var : Int
+  kind : Int               -- 0 event, 1 timeout, 2 process, 3 all_of, 4 any_of
+  created : Rat
+  at_ : Nat                -- position of the creation in the trace
+  delay : Rat := 0
+  value : Int := 0
+  proc : Int := -1
+  members : List Int := []
+  deriving Inhabited
+
+def pyInfos (o : Obs) : List PyInfo :=
+  (idx o).filterMap (fun p =>
+    let e := p.1
+    if e.tag == "pynew" then
+      let k := arg e 2
+      some { idx := arg e 0, var := arg e 1, kind := k, created := e.time, at_ := p.2,
+             delay := if k == 1 then ratArg (arg e 3) (arg e 4) else 0,
+             value := if k == 1 then arg e 5 else 0,
+             proc := if k == 2 then arg e 3 else -1,
+             members := if k == 3 || k == 4 then e.args.drop 3 else [] }
+    else none)
+
+/-- when and how an event triggers according to the rules of the statement: `(time, position in the
+trace or 0, code)` with code `[0, v]`, `[1, exception..]` or `[2]` (condition value, members checked
+separately) -/
+def pyOutcome (o : Obs) (infos : List PyInfo) (envStart : Rat) : Nat → Int → Option (Rat × List Int)
+  | 0, _ => none
+  | fuel + 1, i =>
+    match infos.find? (·.idx == i) with
+    | none => none
+    | some inf =>
+      if inf.kind == 0 then
+        ((idx o).find? (fun p => p.1.tag == "pytrig" && arg p.1 0 == i)).map (fun p =>
+          (p.1.time, if arg p.1 1 == 1 then [0, arg p.1 2] else 1 :: p.1.args.drop 2))
+      else if inf.kind == 1 then some (ratMax inf.created envStart + inf.delay, [0, inf.value])
+      else if inf.kind == 2 then
+        ((idx o).find? (fun p => p.1.tag == "pyend" && p.1.label == 5000 + inf.proc)).map (fun p =>
+          (p.1.time, if arg p.1 0 == 0 then [0, arg p.1 1] else p.1.args))
+      else
+        let outs := inf.members.map (pyOutcome o infos envStart fuel)
+        let known := outs.filterMap id
+        let failed := known.filter (fun t => t.2.headD 0 == 1)
+        let clamp (t : Rat) : Rat := ratMax t (ratMax inf.created envStart)
+        if inf.members.isEmpty then some (clamp inf.created, [2])     -- `all([])`, and simpy's `any_events` of nothing
+        else if inf.kind == 3 then
+          -- all_of: fails with the first member failure, else fires with the last member
+          match failed.foldl (fun (m : Option (Rat × List Int)) t => match m with
+              | some b => if t.1 < b.1 then some t else some b
+              | none => some t) none with
+          | some f =>
+            -- (only decided if every member that fires earlier is known)
+            some (clamp f.1, f.2)
+          | none =>
+            if known.length == outs.length then some (clamp (known.foldl (fun m t => ratMax m t.1) inf.created), [2]) else none
+        else
+          -- any_of: the earliest member decides
+          match known.foldl (fun (m : Option (Rat × List Int)) t => match m with
+              | some b => if t.1 < b.1 then some t else some b
+              | none => some t) none with
+          | some f => some (clamp f.1, if f.2.headD 0 == 1 then f.2 else [2])
+          | none => none
+
+def judgeC18 (o : Obs) : Verdict :=
+  let infos := pyInfos o
+  -- the environment starts when it is entered, not before its initial time
+  let envStart : Rat := ((o.events.find? (·.tag == "pyuntil")).map (fun e => ratMax e.time (ratArg (arg e 3) (arg e 4)))).getD 0
+  let out (i : Int) := pyOutcome o infos envStart 8 i
+  -- ... and ends when `until` / the `async with` block returns (or the run ends)
+  let envEnd : Rat := ((o.events.find? (·.tag == "pydone")).map (·.time)).getD o.final
+  let procs := infos.filter (·.kind == 2)
+  -- a condition passes on the failure of one of its (nested) members
+  let rec memberFailureF (fuel : Nat) (i : Int) (got : List Int) (upto : Rat) : Bool :=
+    match fuel with
+    | 0 => false
+    | fuel + 1 =>
+      match infos.find? (·.idx == i) with
+      | some inf => inf.members.any (fun m =>
+          (match out m with
+           | some (tm, c) => c == got && tm ≤ upto
+           | none => false) || memberFailureF fuel m got upto)
+      | none => false
+  let memberFailure (i : Int) (got : List Int) (upto : Rat) : Bool := memberFailureF 6 i got upto
+  -- J1/J2: every wait of a process ends at max(yield time, trigger time) with the event's value
+  let waits := procs.flatMap (fun pr =>
+    let l := 5000 + pr.proc
+    let mine := ofLabel o l
+    (mine.filter (·.1.tag == "pyyield")).flatMap (fun y =>
+      let step := arg y.1 0
+      let target := arg y.1 1
+      match mine.find? (fun r => r.1.tag == "recv" && arg r.1 0 == step && r.2 > y.2) with
+      | none => []
+      | some r =>
+        let got := r.1.args.drop 1
+        let asValue : Bool := (match out target with
+          | some (t, code) => code == got && r.1.time == ratMax y.1.time t
+          | none => false) || memberFailure target got r.1.time
+        if (got.take 2 == [1, 16] && !asValue) || target < 0 then []
+        else match out target with
+          | none => [s!"process {pr.proc} resumed at {r.1.time} from waiting for event {target}, which never triggered"]
+          | some (t, code) =>
+            let isCond := (infos.find? (·.idx == target)).any (fun inf => inf.kind == 3 || inf.kind == 4)
+            let tmembers : List Int := ((infos.find? (·.idx == target)).map (·.members)).getD []
+            let sameTimeMembers : Bool := isCond && tmembers.any (fun m =>
+              match out m with
+              | some (tm, c) => tm == t && c.headD 0 == 1
+              | none => false)
+            fail (r.1.time != ratMax y.1.time t)
+              s!"process {pr.proc} yielded event {target} at {y.1.time}; the event triggers at {t} but the process resumed at {r.1.time}" ++
+            fail (!isCond && got != code)
+              s!"process {pr.proc} received {got} from event {target} whose value is {code}" ++
+            fail (isCond && !sameTimeMembers && got.headD 0 != code.headD 0)
+              s!"process {pr.proc} received {got} from condition {target}, expected outcome kind {code}" ++
+            -- exactly the members fired by then: everything strictly earlier is in, nothing later
+            (if isCond && got.headD 0 == 2 then
+              let ms := ((infos.find? (·.idx == target)).map (·.members)).getD []
+              let flat := ms.all (fun m => (infos.find? (·.idx == m)).any (fun inf => inf.kind < 3))
+              if flat then
+                ms.flatMap (fun m => match out m with
+                  | some (tm, c) =>
+                    fail (tm < t && c.headD 0 == 0 && !(got.drop 1).contains m) s!"condition {target} fired at {t} without exposing member {m} fired at {tm}" ++
+                    fail (tm > t && (got.drop 1).contains m) s!"condition {target} fired at {t} exposing member {m} that fires only at {tm}"
+                  | none => fail ((got.drop 1).contains m) s!"condition {target} exposes member {m} that never fired")
+              else []
+            else [])))
+  -- J3: interrupts: one per yield, in call order, in the time step of the call; none for a finished process
+  let intr := procs.flatMap (fun pr =>
+    let l := 5000 + pr.proc
+    let mine := ofLabel o l
+    let endAt := ((mine.find? (·.1.tag == "pyend")).map (·.2)).getD (o.events.length + 1)
+    let firstYield := ((mine.find? (·.1.tag == "pyyield")).map (·.2)).getD (o.events.length + 1)
+    let calls := (idx o).filter (fun p => p.1.tag == "pyintr" && arg p.1 0 == pr.proc && p.2 < endAt)
+    -- (an Interrupt that is the value of the failed event the process waited for is not an interrupt of the process)
+    let recvs := mine.filter (fun r => r.1.tag == "recv" && (r.1.args.drop 1).take 2 == ([1, 16] : List Int) &&
+      !((mine.find? (fun y => y.1.tag == "pyyield" && arg y.1 0 == arg r.1 0 && y.2 < r.2)).any (fun y =>
+          (match out (arg y.1 1) with
+           | some (t, code) => code == r.1.args.drop 1 && r.1.time == ratMax y.1.time t
+           | none => false) || memberFailure (arg y.1 1) (r.1.args.drop 1) r.1.time)))
+    fail (recvs.length > calls.length) s!"process {pr.proc} received {recvs.length} interrupts, {calls.length} were sent while it was alive" ++
+    (recvs.zip calls).flatMap (fun rc =>
+      fail (arg rc.1.1 3 != arg rc.2.1 1) s!"process {pr.proc}: interrupt causes delivered out of call order ({arg rc.1.1 3} for {arg rc.2.1 1})" ++
+      fail (rc.1.2 < rc.2.2) s!"process {pr.proc}: interrupt delivered before it was sent" ++
+      fail (rc.2.2 > firstYield && rc.1.1.time != rc.2.1.time) s!"process {pr.proc}: interrupt sent at {rc.2.1.time} delivered at {rc.1.1.time}") ++
+    -- a process that is still waiting when further interrupts are pending must get them at once
+    fail (recvs.length < calls.length && endAt > o.events.length &&
+          ((mine.filter (·.1.tag == "pyyield")).getLast?.map (fun y => decide (y.2 > ((calls.getD recvs.length default).2)))).getD false &&
+          ((mine.filter (·.1.tag == "pyyield")).getLast?.map (fun y => decide (y.1.time < envEnd))).getD false)
+      s!"process {pr.proc} kept waiting although interrupt number {recvs.length + 1} was sent to it")
+  -- J4: an event is triggered at most once; callbacks run once, at the trigger
+  let once := infos.flatMap (fun inf =>
+    let trigs := o.events.filter (fun e => e.tag == "pytrig" && arg e 0 == inf.idx)
+    let added := o.events.filter (fun e => e.tag == "addcb" && arg e 0 == inf.idx)
+    let ran := o.events.filter (fun e => e.tag == "cb" && e.label == 4000 + inf.idx)
+    fail (trigs.length > 1) s!"event {inf.idx} was triggered {trigs.length} times" ++
+    fail (ran.length > added.length) s!"event {inf.idx}: {ran.length} callback invocations for {added.length} callbacks" ++
+    fail (!(ran.all (fun r => added.any (fun a => arg a 1 == arg r 0)))) s!"event {inf.idx}: a callback ran that was never added" ++
+    (match out inf.idx with
+     | some (t, _) =>
+       fail (ran.any (fun r => r.time != t)) s!"event {inf.idx} triggers at {t} but callbacks ran at {ran.map (·.time)}" ++
+       (match o.events.find? (·.tag == "pydone") with
+        | some d => fail (t < d.time && ran.length != added.length) s!"event {inf.idx} triggered at {t}: {ran.length} of {added.length} callbacks ran"
+        | none => [])
+     | none => fail (!ran.isEmpty && inf.kind < 3) s!"callbacks of event {inf.idx} ran although it never triggered"))
+  -- J5: env.until(..) returns exactly at the given time / when the given event triggers
+  let untilC := (idx o).flatMap (fun p =>
+    if p.1.tag == "pyuntil" then
+      match (ofLabel o p.1.label).find? (fun d => d.2 > p.2 && d.1.tag == "pydone") with
+      | none => []
+      | some d =>
+        if arg p.1 0 == 1 then
+          let t := ratArg (arg p.1 1) (arg p.1 2)
+          fail (d.1.time != t) s!"env.until({t}) returned at {d.1.time}"
+        else if arg p.1 0 == 2 then
+          match infos.find? (·.var == arg p.1 1) with
+          | some inf => (match out inf.idx with
+            | some (t, _) => fail (d.1.time != ratMax t envStart && inf.kind < 3) s!"env.until(event {inf.idx}) returned at {d.1.time}, the event triggers at {t} (environment started at {envStart})"
+            | none => fail (inf.kind < 3) s!"env.until(event {inf.idx}) returned at {d.1.time} although the event never triggered")
+          | none => []
+        else []
+    else [])
+  waits ++ intr ++ once ++ untilC
+
 /-! ### C13 - pipes: the fluid model replayed over the implementation's trace -/
 
 /-- how far a completion may be from the fluid model's (floating point rounding of the
